@@ -76,7 +76,8 @@ CLAIMS = {
              "has_free_verify agree with the encoder's template; limit comparisons pair the right figure with the right "
              "limit; constants are Bitcoin's; placeholder sizes match what is produced; max_weight_to_satisfy of every "
              "non-taproot descriptor type equals the BIP-141 weight of the standard assembly on grids crossing every "
-             "push-size and compact-size breakpoint.",
+             "push-size and compact-size breakpoint; script_size of every fragment equals the encoder's template length "
+             "(rule shared with C04).",
         note="Trusted: spec/satisfaction.py, spec/script.py, spec/limits.py; rustc THIR. Executed-opcode and exec-stack "
              "depth figures, and measured witnesses, are not decided.",
         tech=STATIC + "symbolic extraction of accounting rules as max-plus / linear forms, domination check against template images",
@@ -121,8 +122,11 @@ CLAIMS["C20"] = dict(
          "translators rebuilds the same variant with mapped payloads, preserved k / weights / child order and per-node "
          "re-checks; every key visitor (for_each_key, iter_pk, get_nth_pk) covers every key-carrying variant computed "
          "from the type definition; TreeLike::as_node, branches, get_nth_child agree with the arity and order of the type "
-         "definition; wrapper translations and Descriptor dispatch are uniform. Decided by evaluating the functions "
-         "(THIR) on one-level model values for all 30 variants.",
+         "definition; wrapper translations and Descriptor dispatch are uniform; every descriptor wrapper's translate_pk "
+         "(Bare, Pkh, Wpkh, Wsh, Sh x 3, Tr without / with a tree) succeeds exactly when every mapping, every inner "
+         "translation and the checking constructor succeed, keeps all leaves in order, and otherwise returns that very "
+         "error (outcome table over who fails and how). Decided by evaluating the functions (THIR) on one-level model "
+         "values for all 30 variants.",
     note="Trusted: model of the generic tree iterators; rustc THIR. Identity / composition laws on deep trees and "
          "derivation-level key behaviour are not re-proved.",
     tech=STATIC + "per-variant structure-preservation table extracted by evaluating THIR on model values; dispatch uniformity over match arms",
@@ -133,9 +137,14 @@ CLAIMS["C16"] = dict(
     text="Decides that the per-type output table is the standard one and that its siblings agree: scriptPubKey, inner "
          "script, ECDSA script code, unsigned scriptSig and address of bare / pkh / wpkh / wsh / sh / sh-wsh / sh-wpkh "
          "extracted symbolically and compared with the BIP16/141/143 table; sorted multisig sites sort with the matching "
-         "routine in encoder and satisfier; Descriptor dispatch is uniform; derive_public_key's key-variant table.",
-    note="Trusted: spec/outputs.py; rust-bitcoin script/address constructors modelled as term constructors; rustc THIR. "
-         "BIP32 derivation equality, multipath expansion and taproot output keys are not decided.",
+         "routine in encoder and satisfier; Descriptor dispatch is uniform; derive_public_key's key-variant table; on "
+         "~100 key expressions (single / x-only / extended keys x origin x path x multipath step x wildcard) "
+         "at_derivation_index appends exactly the child the wildcard names (refusing i >= 2^31, hardened results and "
+         "multipath keys), into_single_keys yields one key per alternative in order, full_derivation_path(s) = origin "
+         "path + path, and derive_public_key derives along exactly that path.",
+    note="Trusted: spec/outputs.py; rust-bitcoin script/address constructors and BIP-32 child derivation modelled as term "
+         "constructors; rustc THIR. BIP32 arithmetic, descriptor-level multipath expansion and taproot output keys are "
+         "not decided.",
     tech=STATIC + "symbolic extraction of output-script terms compared with a standards table; sibling agreement; dispatch uniformity",
     engine="symx")
 CLAIMS["C17"] = dict(
@@ -257,7 +266,8 @@ CLAIMS["C06"] = dict(
          "accepted fragment the specification's Script is executed by a reference executor on every input stack up to "
          "length 3 over {0, 1, 2, valid / foreign signatures, keys, right / wrong preimages, junk} and all single "
          "substitutions of the canonical witnesses, and the label predictions are checked: B / V / K / W stack shapes, "
-         "z / o / n consumption, u, d, s, f, and that canonical (dis)satisfactions leave non-zero / zero.",
+         "z / o / n consumption, u, d, s, f, and that canonical (dis)satisfactions leave non-zero / zero; Type::cast_x "
+         "equals type_check of the wrapper on all (cast, child type) pairs (rule shared with C08).",
     note="Trusted: spec/typesem.py (label meanings incl. the MINIMALIF assumption), spec/msexec.py, spec/script.py; C05 "
          "(rules == specification) and C04 (encoder == templates) connect the labels and scripts to the library; rustc "
          "THIR; evaluator. `e` and `m` (third-party malleation) and deeper fragments are not decided.",
@@ -276,7 +286,9 @@ CLAIMS["C08"] = dict(
          "dissatisfaction probability), builds only fragments whose lift (specification table) has the policy's truth "
          "table; (casts) each of the 10 casts wraps in the fragment its rule functions belong to, and Type::cast_x "
          "equals Type::type_check of the wrapper on all ~4300 (cast, child type) pairs, so the unchecked constructor "
-         "attaches the true type.",
+         "attaches the true type; the validity predicates the gates rely on (is_valid, check_timelocks / "
+         "check_duplicate_keys, is_safe_nonmalleable) agree with the truth-table oracle on a family of concrete policies "
+         "(rule shared with C18); the policy cache's order and the context limit pairing (shared with C19 / C09).",
     note="Trusted: spec/semantics.py + spec/policy_sem.py; C05/C06 (types are sound), C07 (lift), C09 (limits used by "
          "check_local_validity); rustc THIR; evaluator. Cost optimality, ExtData attached by casts (C09 decides the "
          "rules), taproot key extraction / leaf enumeration / Huffman tree and re-parsing of outputs are not decided.",
